@@ -33,6 +33,7 @@ def cases(tier):
     for shape in GATE_SHAPES:
         yield {"kind": "gate", "shape": shape, "tier": tier}
     yield {"kind": "fromitp", "tier": tier}
+    yield {"kind": "explicit", "tier": tier}
 
 
 def recount(mm, rg_nodes_by_resid):
@@ -234,8 +235,79 @@ def check_fromitp(case):
     return dict(evals=evals, keys=keys, violations=viols, stats={"inputs_fromitp": evals}, sample=dict(kind="fromitp", inputs=evals))
 
 
+def check_explicit(case):
+    """junction bonds made by explicit links ([ molmeta ] by_atom_id true), through the program: sequences over A (2 atoms),
+    B (1 atom), C (3 atoms); every subset of the junctions gets a bond last atom of residue i - first atom of residue i+1
+    (one link holding all bonds / one link per bond), optionally next to an explicit bond inside a residue at the boundary.
+    Oracle: the pairs warned about are exactly the residue edges without a bond in the written file, and the atom-level
+    edges of the molecule that was built join the same residue pairs as the bonds of the file"""
+    import itertools
+    viols, evals, keys = [], 0, []
+    spec = gp_cases.make_spec({"links": [], "blocks": "ABC"})
+    ff_txt = F.render_ff(spec)
+    for k in (2, 3):
+        for seq in itertools.product("ABC", repeat=k):
+            sizes = [len(F.BLOCKS[t]["atoms"]) for t in seq]
+            first = [sum(sizes[:i]) for i in range(k)]
+            last = [first[i] + sizes[i] - 1 for i in range(k)]
+            for joined in itertools.product([0, 1], repeat=k - 1):
+                for intra in (False, True):
+                    for per_bond in (False, True):
+                        lines = [f"{last[i] + 1} {first[i + 1] + 1} 1 0.4{i} 50{i}" for i in range(k - 1) if joined[i]]
+                        if intra:
+                            # a bond inside the first residue that has two atoms, between its last two atoms
+                            big = [i for i in range(k) if sizes[i] >= 2]
+                            if not big:
+                                continue
+                            lines.append(f"{last[big[0]]} {last[big[0]] + 1} 1 0.39 390")
+                        if not lines:
+                            continue
+                        if per_bond:
+                            link_txt = "".join("[ link ]\n[ molmeta ]\nby_atom_id true\n[ bonds ]\n" + ln + "\n" for ln in lines)
+                        else:
+                            link_txt = "[ link ]\n[ molmeta ]\nby_atom_id true\n[ bonds ]\n" + "\n".join(lines) + "\n"
+                        rg = dict(n=k, edges=[[i, i + 1] for i in range(k - 1)], resids=[1 + i for i in range(k)], resnames=list(seq))
+                        case1 = dict(kind="explicit1", seq=list(seq), joined=list(joined), intra=intra, per_bond=per_bond)
+                        evals += 1
+                        with H.tempdir() as d:
+                            r = H.run_gen_params(d, [("ff.ff", ff_txt), ("links.ff", link_txt)], graph=H.build_resgraph(rg))
+                            if r["exc"] is not None:
+                                viols.append(crash_violation(r["exc"], case1, assertion="pipeline-accepts-valid-input", tags=["explicit-link"]))
+                                continue
+                            itp = H.read_itp_plain(r["itp_path"])
+                        res_of = {a["idx"]: a["resid"] for a in itp["atoms"]}
+                        bonded = set()
+                        for tok, guard in itp["inter"].get("bonds", []):
+                            a, b = int(tok[0]), int(tok[1])
+                            if res_of[a] != res_of[b]:
+                                bonded.add((min(res_of[a], res_of[b]), max(res_of[a], res_of[b])))
+                        cap = r["captured"]
+                        key_res = {a["key"]: a["resid"] for a in cap["atoms"]}
+                        cap_bonded = {tuple(sorted((key_res[a], key_res[b]))) for a, b in cap["edges"] if key_res[a] != key_res[b]}
+                        warned = sorted(tuple(sorted((int(m.group(1)), int(m.group(3))))) for lvl, msg, _ in r["logs"]
+                                        for m in [WARN.search(msg)] if m and lvl == "WARNING")
+                        want_bonded = {(i + 1, i + 2) for i in range(k - 1) if joined[i]}
+                        want_warn = sorted((i + 1, i + 2) for i in range(k - 1) if not joined[i])
+                        info = f" | sequence {list(seq)} explicit bonds {lines} ({'one link per bond' if per_bond else 'one link'})"
+                        if bonded != want_bonded and len(viols) < 20:
+                            viols.append(dict(assertion="harness-explicit-structure", tags=["harness"], message=f"file bonds join {sorted(bonded)} expected {sorted(want_bonded)}" + info, case=case1, detail={}))
+                        if warned != want_warn and len(viols) < 20:
+                            viols.append(dict(assertion="warning-iff-not-bonded", tags=["explicit-link"],
+                                              message=f"warnings {warned}, residue edges without a bond in the file {want_warn}" + info, case=case1, detail={}))
+                        if cap_bonded != bonded and len(viols) < 20:
+                            viols.append(dict(assertion="atom-level-edges-are-the-bonds", tags=["explicit-link"],
+                                              message=f"atom-level edges of the built molecule join residues {sorted(cap_bonded)}, the bonds written join {sorted(bonded)}" + info, case=case1, detail={}))
+                        keys.append(json.dumps([seq, joined, intra, per_bond]))
+    return dict(evals=evals, keys=keys, violations=viols, stats={"inputs_explicit": evals}, sample=dict(kind="explicit", inputs=evals))
+
+
 def run_case(case):
     stats = {}
+    if case["kind"] in ("explicit", "explicit1"):
+        out = check_explicit(case)
+        if case["kind"] == "explicit1":
+            out["violations"] = [v for v in out["violations"] if all(v["case"].get(k) == case.get(k) for k in ("seq", "joined", "intra", "per_bond"))]
+        return out
     if case["kind"] in ("fromitp", "fromitp1"):
         out = check_fromitp(case)
         if case["kind"] == "fromitp1":
